@@ -3,7 +3,7 @@ import random
 from common import *
 
 
-def run_simple(prop, tier, seed, gen, trusted, rule, assumptions, runner_cfg="stable", post=None, **cmp):
+def run_simple(prop, tier, seed, gen, trusted, rule, assumptions, runner_cfg="stable", post=None, also_builds=(), **cmp):
     rng = random.Random(seed)
     res = Result(prop, tier, seed)
     lean = lean_obligations(prop)
@@ -13,6 +13,22 @@ def run_simple(prop, tier, seed, gen, trusted, rule, assumptions, runner_cfg="st
     impl = run_engine(runner, lines)
     model = run_engine(driver_path(), lines) if lean["build_ok"] else {}
     standard_compare(res, cases, impl, model, **cmp)
+    # the same requests on other builds of the crate (e.g. the SIMD BLAKE2b backend): the answer must not depend on the build
+    for cfg in also_builds:
+        impl2 = run_engine(build_runner(cfg), lines)
+        ndiff = 0
+        for c in cases:
+            a, b = impl.get(c.id, ["missing"])[0], impl2.get(c.id, ["missing"])[0]
+            res.evaluations += 1
+            res.count("build=%s/%s" % (cfg, c.cls.split("/")[0]))
+            if a == "n/a" or b == "n/a" or c.line.split(" ")[0] in PROFILE_DEPENDENT_OPS:
+                continue
+            if a != b:
+                ndiff += 1
+                if ndiff <= 20:
+                    res.violations.append({"kind": "impl(%s)!=impl(%s)" % (cfg, runner_cfg), "line": c.line, "answers": {"impl(%s build)" % runner_cfg: a, "impl(%s build)" % cfg: b, "sodium": impl.get(c.id, ["", "n/a"])[1]},
+                                           "why": "the answer depends on the build configuration (%s vs %s)" % (cfg, runner_cfg), "runner_cfg": cfg})
+        res.extra["also_builds"] = list(also_builds)
     if post:
         post(res, cases, impl, model)
     if tier == "thorough" and lean["build_ok"]:
